@@ -81,6 +81,12 @@ class Sym:
             c = self.calls[bi]
             if proj and proj[0].startswith("as Some") and c.is_fn("memmem::Finder::<'n>::find"):
                 return ("index",)
+            if proj and proj[0].startswith("as Continue") and c.is_fn("Try::branch"):
+                # `find(..)?` on an Option: the Continue payload is the Some payload
+                inner = c.args[0]
+                if inner.get("pl") is not None:
+                    ipl = inner["pl"]
+                    return self.of_place({"l": ipl["l"], "p": (ipl.get("p") or []) + ["as Some", ".0"]}, depth + 1)
             if proj and proj != ["*"]:
                 return ("unknown", "proj-of-call")
             if c.is_fn("slice::<impl [T]>::len"):
